@@ -20,6 +20,7 @@ machine with the old effects that they are not vacuous (`…_old_code_fails`).
 -/
 import CaddyModel.C02.Lemmas
 import CaddyModel.C02.Reload
+import CaddyModel.C02.Admin
 import CaddyModel.C02.Witness
 
 namespace CaddyModel.C02
@@ -289,13 +290,99 @@ theorem reload_sequence_is_a_run (cfgs : List (Cfg × Sched)) (hok : okSeq 0 cfg
   obtain ⟨s, h1, hr, hp, hd⟩ := reloadSeq_run cfgs (s0 := init) Reach.init rfl rfl hok
   exact ⟨s, h1, hr, ⟨hp, hd⟩⟩
 
-/-! ### the order matters -/
+/-! ### example configs -/
 
 def exT0 : Addr := ⟨false, 0⟩
 def exU0 : Addr := ⟨true, 0⟩
 def exOld : Cfg := ⟨0, [exT0, exU0]⟩
 def exNew : Cfg := ⟨1, [exU0, exT0]⟩
 def exSched : Sched := ⟨3, 1, 1, 1, 1, 4⟩
+
+/-! ### the admin endpoint: a second client of the same bookkeeping -/
+
+/-- **The running admin server has its listener open — in every reachable state**: the new admin listener
+    is bound before the server it replaces is shut down; rejected loads and caddy.Stop do not touch it. -/
+theorem admin_listener_never_unbound {s : State} (h : Reach s) {g : Gen} {a : Addr}
+    (ha : s.adm = some (g, a)) : (s.asocks a).holds g = true ∧ 1 ≤ (s.asocks a).hs.length := by
+  have hh := h.ainv.holds g a ha
+  obtain ⟨x, hx, _⟩ := (Sock.holds_iff _ _).mp hh
+  exact ⟨hh, List.length_pos_of_mem hx⟩
+
+/-- **A retained admin address is never unbound**: over any run (any number of loads, accepted or
+    rejected, caddy.Stop included) in which every admin server that is started listens on `a`, a
+    listener is open on `a` in the end — hence after every prefix. -/
+theorem admin_retained_never_unbound {s0 s : State} (h0 : Reach s0) {a : Addr} (hq : ∃ g, s0.adm = some (g, a))
+    (steps : List Step) (hk : keepsAdmin a steps = true) (hr : run s0 steps = some s) :
+    1 ≤ (s.asocks a).hs.length := by
+  obtain ⟨g, hg⟩ := keepsAdmin_run steps hq hr hk
+  exact (admin_listener_never_unbound (h0.run steps s hr) hg).2
+
+/-- whoever answers on an admin address is the running admin server or one that was replaced and whose
+    listener is not closed yet -/
+theorem admin_served_by_current_or_replaced {s : State} (h : Reach s) {a : Addr} {g : Gen}
+    (hg : g ∈ (s.asocks a).gens) : s.adm = some (g, a) ∨ (g, a) ∈ s.admRetired := by
+  obtain ⟨x, hx, rfl⟩ := List.mem_map.mp hg
+  exact h.ainv.owner a x hx
+
+/-- once the replaced admin servers have shut down, only the running one answers, on its address only -/
+theorem admin_after_drain {s : State} (h : Reach s) (hd : s.admRetired = []) :
+    (∀ g a, s.adm = some (g, a) → (s.asocks a).gens = [g]) ∧
+    (∀ b, (∀ g, s.adm ≠ some (g, b)) → (s.asocks b).hs = []) := by
+  have hi := h.ainv
+  have hall : ∀ b x, x ∈ (s.asocks b).hs → s.adm = some (x.gen, b) := by
+    intro b x hx
+    rcases hi.owner b x hx with ho | ho
+    · exact ho
+    · rw [hd] at ho; cases ho
+  refine ⟨fun g a ha => ?_, fun b hb => ?_⟩
+  · obtain ⟨x, hx, hxg⟩ := (Sock.holds_iff _ _).mp (hi.holds g a ha)
+    have hnd : (s.asocks a).gens.Nodup := hi.nodup a
+    have hgen : ∀ y, y ∈ (s.asocks a).gens → y = g := by
+      intro y hy
+      obtain ⟨z, hz, rfl⟩ := List.mem_map.mp hy
+      have := hall a z hz
+      rw [ha] at this
+      simpa using (Prod.mk.inj (Option.some.inj this)).1.symm
+    have hmem : g ∈ (s.asocks a).gens := List.mem_map.mpr ⟨x, hx, hxg⟩
+    cases hl : (s.asocks a).gens with
+    | nil => rw [hl] at hmem; cases hmem
+    | cons y rest =>
+      rw [hl] at hgen hnd
+      have hy := hgen y (by simp)
+      cases rest with
+      | nil => rw [hy]
+      | cons y2 r2 =>
+        have h2 := hgen y2 (by simp)
+        simp [hy, h2] at hnd
+  · cases hl : (s.asocks b).hs with
+    | nil => rfl
+    | cons x rest => exact absurd (hall b x (by rw [hl]; simp)) (hb x.gen)
+
+/-- (as the code is) a rejected load and caddy.Stop leave the admin endpoint that the load started in place -/
+theorem admin_not_rolled_back (s : State) :
+    (eff s .reject).adm = s.adm ∧ (eff s .stopAll).adm = s.adm ∧
+    (eff s .reject).asocks = s.asocks ∧ (eff s .stopAll).asocks = s.asocks := ⟨rfl, rfl, rfl, rfl⟩
+
+def exM0 : Addr := ⟨false, 10⟩
+
+/-- a load of config 1 on top of config 0, both with the admin endpoint on m0, the old admin server's
+    listener closed late -/
+def exAdminReload : List Step :=
+  [.begin ⟨0, [exT0]⟩, .adminReplace 0 (some exM0), .bind exT0, .swap, .ret,
+   .begin ⟨1, [exT0]⟩, .adminReplace 1 (some exM0), .cb .provision 1, .bind exT0, .cb .started 1, .swap, .close 0 exT0, .ret,
+   .adminClose 0 exM0]
+
+/-- **admin_reorder_breaks_it**: shutting the old admin server down before the new listener is bound
+    leaves the admin address without a listener; the machine refuses that order (the old server is
+    not retired before the new one is started). -/
+theorem admin_reorder_breaks_it :
+    ((run init (exAdminReload.take 6)).map fun s =>
+        ((runUnguarded s [.adminClose 0 exM0]).asocks exM0).hs.length) = some 0 ∧
+    ((run init (exAdminReload.take 6)).bind fun s => run s [.adminClose 0 exM0, .adminReplace 1 (some exM0)]) = none ∧
+    ((run init exAdminReload).map fun s => ((s.asocks exM0).gens, (s.asocks exM0).pool, s.admRetired)) = some ([1], 1, []) := by
+  decide
+
+/-! ### the order matters -/
 
 /-- the state after the first load of `exOld` -/
 def exRunning : Option State := run init (reloadSteps exOld none (.mk 2 0 1 0 0 0))
@@ -367,6 +454,15 @@ example : okSeq 0 [(exOld, exSched), (exNew, exSched), (⟨5, [exT0]⟩, exSched
   simp [okSeq, exOld, exNew, exT0, exU0]
 example : ((run init (reloadSeq none [(exOld, exSched), (exNew, exSched), (⟨5, [exT0]⟩, exSched)])).map
     fun s => (servers s exT0, servers s exU0, connect s exU0)) = some ([5], [], [.noent]) := by decide
+
+-- admin: in the middle of the second load both admin servers have their listener open on m0
+example : ((run init (exAdminReload.take 8)).map fun s => ((s.asocks exM0).gens, (s.asocks exM0).pool, s.adm, s.admRetired))
+    = some ([0, 1], 2, some (1, exM0), [(0, exM0)]) := by decide
+example : keepsAdmin exM0 exAdminReload = true := by decide
+-- a rejected load that moves the admin endpoint: the move stays (admin_not_rolled_back)
+example : ((run init ([.begin ⟨0, [exT0]⟩, .adminReplace 0 (some exM0), .bind exT0, .swap, .ret,
+      .begin ⟨1, [exT0]⟩, .adminReplace 1 none, .bind exT0, .reject, .close 1 exT0, .ret, .adminClose 0 exM0])).map
+    fun s => (genOf s.cur, s.adm, (s.asocks exM0).hs.length)) = some (some 0, none, 0) := by decide
 
 -- `unlinks`: the fresh bind of a unix socket is the unlinking step, and nobody holds it then
 example : unlinks init (.bind exU0) exU0 := ⟨rfl, rfl, rfl⟩
